@@ -163,6 +163,7 @@ type pSet struct {
 	idom              []int
 	invT, invT2       func(float64) float64 // long-lived quantile functions, shared by all goroutines
 	wsHuge, wsTiny    []float64             // weights of extreme magnitude (1/sigma^2 with sigma in ns / in 1e6)
+	attrs             []graphout.DotAttr    // one attribute table; NodeAttrs/EdgeAttrs hand out prefixes of it (spare capacity = the caller's other entries)
 	gBig              graph.IntGraph        // 3000 nodes: node ids beyond any small fixed-size scratch structure
 	xsBig             []float64             // 40000 values of mixed magnitude: the order of additions shows in the last bits
 	bgShared          graph.BiGraph         // one BiGraph object for all goroutines; replaced by an untouched one before the concurrent phase
@@ -221,6 +222,7 @@ func mkSet(rng *rand.Rand) *pSet {
 	}
 	p.xsSorted = tied(n, 7, 5)
 	sort.Float64s(p.xsSorted)
+	p.attrs = []graphout.DotAttr{{Name: "color", Val: "red"}, {Name: "shape", Val: "box"}, {Name: "style", Val: "bold"}, {Name: "peripheries", Val: 2}}
 	p.gBig = make(graph.IntGraph, 3000)
 	for i := range p.gBig {
 		if i+1 < len(p.gBig) {
@@ -284,6 +286,7 @@ func mkSet(rng *rand.Rand) *pSet {
 		"wsHuge": func() string { return digestAny(p.wsHuge) }, "wsTiny": func() string { return digestAny(p.wsTiny) },
 		"gBig": func() string { return digestAny(graph.Graph(p.gBig)) }, "xsBig": func() string { return digestAny(p.xsBig) },
 		"xsSorted": func() string { return digestAny(p.xsSorted) },
+		"attrs":    func() string { return fmt.Sprintf("%v", p.attrs) },
 		"samp":     func() string { return digSample(&p.samp) }, "wsamp": func() string { return digSample(&p.wsamp) },
 		"sortMe": func() string { return digSample(&p.sortMe) }, "swsamp": func() string { return digSample(&p.swsamp) },
 		"linRev": func() string { return fmt.Sprintf("%+v", p.linRev) }, "rev": func() string { return digestAny(p.rev) },
@@ -448,6 +451,51 @@ func purityEntries() []pEntry {
 			id := graphalg.IDom(p.bgShared, 0)
 			return []any{id, graphalg.DomFrontier(p.bgShared, 0, id), p.bgShared.In(1500)}
 		}},
+		// parameter sweeps (no shared object: the data is a package constant): each goroutine of the concurrent phase starts with
+		// one of these, so that calls with MANY DIFFERENT parameters are in flight at the same time - a value memo keyed by the
+		// parameters and updated in several steps returns another key's value only then
+		{"sweep: MeanCI of the prefixes 3..130", []string{}, "", false, func(p *pSet) any {
+			var out []any
+			for n := 3; n <= 130; n++ {
+				out = append(out, tri(stats.MeanCI(sweepXs[:n], 0.95)))
+			}
+			return out
+		}},
+		{"sweep: TDist{1..300}.CDF", []string{}, "", false, func(p *pSet) any {
+			var out []any
+			for v := 1; v <= 300; v++ {
+				out = append(out, stats.TDist{V: float64(v)}.CDF(1.3), stats.TDist{V: float64(v) + 0.5}.CDF(-0.7))
+			}
+			return out
+		}},
+		{"sweep: BinomialDist{1..200}.CDF", []string{}, "", false, func(p *pSet) any {
+			var out []any
+			for n := 1; n <= 200; n++ {
+				out = append(out, stats.BinomialDist{N: n, P: 0.3}.CDF(float64(n/3)))
+			}
+			return out
+		}},
+		{"sweep: BetaInc over 120 shapes", []string{}, "", false, func(p *pSet) any {
+			var out []any
+			for a := 0.5; a <= 20; a += 0.5 {
+				for _, b := range []float64{0.5, 2, 7.5} {
+					out = append(out, mathx.BetaInc(0.4, a, b), mathx.Beta(a, b))
+				}
+			}
+			return out
+		}},
+		{"sweep: Welch t-test of prefixes", []string{}, "", false, func(p *pSet) any {
+			var out []any
+			for n := 4; n <= 100; n += 3 {
+				r, err := stats.TwoSampleWelchTTest(stats.Sample{Xs: sweepXs[:n]}, stats.Sample{Xs: sweepXs[n : 2*n+5]}, stats.LocationDiffers)
+				if err != nil {
+					out = append(out, err.Error())
+				} else {
+					out = append(out, r.T, r.P, r.DoF)
+				}
+			}
+			return out
+		}},
 		{"vec.Sum(40000)", []string{"xsBig"}, "", false, func(p *pSet) any { return vec.Sum(p.xsBig) }},
 		{"Sample.Sum/Mean(40000)", []string{"xsBig"}, "", false, func(p *pSet) any {
 			s := stats.Sample{Xs: p.xsBig}
@@ -513,6 +561,14 @@ func purityEntries() []pEntry {
 		{"graphalg.Dom", []string{"idom"}, "", false, func(p *pSet) any { return graph.Graph(graphalg.Dom(p.idom)) }},
 		{"graphalg.SimplifyMulti", []string{"g"}, "", false, func(p *pSet) any { return graph.Graph(graphalg.SimplifyMulti(p.g)) }},
 		{"graphout.Dot.Sprint", []string{"g"}, "", false, func(p *pSet) any { return graphout.Dot{Name: "x"}.Sprint(p.g) }},
+		// attribute callbacks returning prefixes of one shared table, without a label (so that the default label is added):
+		// the table behind the prefix is the caller's, for every goroutine printing with these options
+		{"graphout.Dot.Sprint(shared attribute table)", []string{"g", "attrs"}, "", false, func(p *pSet) any {
+			return graphout.Dot{Name: "y",
+				NodeAttrs: func(i int) []graphout.DotAttr { return p.attrs[:1+i%3] },
+				EdgeAttrs: func(i, j int) []graphout.DotAttr { return p.attrs[1 : 2+(i+j)%2] },
+			}.Sprint(p.g)
+		}},
 		{"NodeMarks.Test", []string{"marks"}, "", false, func(p *pSet) any { return []any{p.marks.Test(3), p.marks.Test(4), p.marks.Next(3), p.marks.Next(2000)} }},
 		{"Linear.Map", []string{"lin"}, "", false, func(p *pSet) any { return []any{p.lin.Map(2.5), p.lin.Unmap(0.3)} }},
 		{"Linear.Ticks", []string{"lin"}, "", false, func(p *pSet) any { a, b := p.lin.Ticks(scale.TickOptions{Max: 6}); return []any{a, b} }},
@@ -626,9 +682,13 @@ func purityRecord(out io.Writer, args []string) error {
 		// concurrent phase: read-only entry points on the same shared inputs
 		var ro []*pEntry
 		var sharedFirst *pEntry
+		var sweeps []*pEntry
 		for k := range entries {
 			if !entries[k].seqOnly {
 				ro = append(ro, &entries[k])
+				if strings.HasPrefix(entries[k].name, "sweep:") {
+					sweeps = append(sweeps, &entries[k])
+				}
 				if strings.Contains(entries[k].name, "(shared BiGraph)") {
 					sharedFirst = &entries[k]
 				}
@@ -646,6 +706,10 @@ func purityRecord(out io.Writer, args []string) error {
 						do(g, sharedFirst, false)
 						continue
 					}
+					if c == 1 && len(sweeps) > 0 {
+						do(g, sweeps[g%len(sweeps)], false)
+						continue
+					}
 					do(g, ro[gr.Intn(len(ro))], false)
 				}
 			}(g)
@@ -654,3 +718,14 @@ func purityRecord(out io.Writer, args []string) error {
 	}
 	return nil
 }
+
+// sweepXs: fixed data for the parameter sweeps (values with inexact mantissas and some spread).
+var sweepXs = func() []float64 {
+	x := make([]float64, 260)
+	v := 0.37
+	for i := range x {
+		v = math.Mod(v*7.13+0.291, 11.7)
+		x[i] = v - 3.1
+	}
+	return x
+}()
